@@ -61,6 +61,13 @@ func (s *State) assume(c string) {
 	if len(s.guards) > 0 {
 		c = implies(and(s.guards...), c)
 	}
+	// the same fact is often re-derived (type invariants of repeated reads): keep one copy.
+	// Only the recent suffix is scanned; older duplicates are harmless.
+	for i := len(s.pc) - 1; i >= 0 && i >= len(s.pc)-400; i-- {
+		if s.pc[i] == c {
+			return
+		}
+	}
 	s.pc = append(s.pc, c)
 }
 
@@ -234,6 +241,35 @@ func mergeStates(d *Decls, states []*State) *State {
 
 func heapSortsReset(d *Decls) { d.heapSorts = map[string]string{} }
 
+// readDep: a heap dependency of a spec function body: a whole component (ref == "") or the slot of
+// one object (the component restricted to reference term ref).
+type readDep struct {
+	comp string
+	ref  string
+	seq  int // discovery order (structural: determined by the spec function body)
+}
+
+// heapRead returns (select H ref) for component comp and records the dependency: only the slot of
+// ref when ref does not mention a quantified variable, the whole component otherwise.
+func (s *State) heapRead(d *Decls, comp, sort, ref string) string {
+	saved := d.trackReads
+	d.trackReads = nil
+	h := s.heapGet(d, comp, sort)
+	d.trackReads = saved
+	if saved != nil {
+		if anyBoundTokRe.MatchString(ref) {
+			if _, ok := saved[comp]; !ok {
+				saved[comp] = readDep{comp: comp, seq: len(saved)}
+			}
+		} else if _, whole := saved[comp]; !whole {
+			if _, ok := saved[comp+"@"+ref]; !ok {
+				saved[comp+"@"+ref] = readDep{comp: comp, ref: ref, seq: len(saved)}
+			}
+		}
+	}
+	return "(select " + h + " " + ref + ")"
+}
+
 func heapInit(d *Decls, comp string) string {
 	name := "H0_" + sanitize(comp)
 	d.declare(name, fmt.Sprintf("(declare-const %s %s)", name, d.heapSorts[comp]))
@@ -243,6 +279,11 @@ func heapInit(d *Decls, comp string) string {
 func (s *State) heapGet(d *Decls, comp, sort string) string {
 	if _, ok := d.heapSorts[comp]; !ok {
 		d.heapSorts[comp] = sort
+	}
+	if d.trackReads != nil {
+		if _, ok := d.trackReads[comp]; !ok {
+			d.trackReads[comp] = readDep{comp: comp, seq: len(d.trackReads)}
+		}
 	}
 	if t, ok := s.heap[comp]; ok {
 		return t
